@@ -29,16 +29,16 @@ pub mod stack {
     }
 
     static mut NEXT: usize = 0x1000_0000;
-    static mut FAIL_NEXT: bool = false;
-    static mut LIVE: usize = 0;
+    static mut FAIL_NEXT: (bool, u32) = (false, 0x5a5a_0001);
+    static mut LIVE: (usize, u64) = (0, 0x5a5a_0002);
 
     /// Model-only: make the next `DefaultStack::new` fail (allocation failure).
     pub fn verif_fail_next_stack(fail: bool) {
-        unsafe { FAIL_NEXT = fail }
+        unsafe { FAIL_NEXT.0 = fail }
     }
     /// Model-only: number of `DefaultStack`s alive.
     pub fn verif_live_stacks() -> usize {
-        unsafe { LIVE }
+        unsafe { LIVE.0 }
     }
 
     #[derive(Debug)]
@@ -51,8 +51,8 @@ pub mod stack {
         /// Fresh segment, disjoint from every segment handed out before, of at least `size` bytes.
         pub fn new(size: usize) -> std::io::Result<Self> {
             unsafe {
-                if FAIL_NEXT {
-                    FAIL_NEXT = false;
+                if FAIL_NEXT.0 {
+                    FAIL_NEXT.0 = false;
                     return Err(std::io::Error::from(std::io::ErrorKind::OutOfMemory));
                 }
                 let size = if size < MIN_STACK_SIZE { MIN_STACK_SIZE } else { size };
@@ -62,7 +62,7 @@ pub mod stack {
                 let limit = NEXT;
                 let base = limit + size;
                 NEXT = base + 0x1000;
-                LIVE += 1;
+                LIVE.0 += 1;
                 Ok(DefaultStack {
                     base: NonZeroUsize::new(base).unwrap(),
                     limit: NonZeroUsize::new(limit).unwrap(),
@@ -77,7 +77,7 @@ pub mod stack {
     }
     impl Drop for DefaultStack {
         fn drop(&mut self) {
-            unsafe { LIVE -= 1 }
+            unsafe { LIVE.0 -= 1 }
         }
     }
     unsafe impl Stack for DefaultStack {
@@ -152,30 +152,34 @@ pub struct StepCtx<Input, Yield, Return> {
 /// `fn(script id, step number, *mut StepCtx<..>)`.
 pub type StepHook = fn(usize, usize, *mut ());
 
-static mut STEP_HOOK: Option<StepHook> = None;
-static mut BODY_MODE: bool = false;
-static mut NEXT_SCRIPT: usize = 0;
-static mut RESUMES: usize = 0;
+// NOTE (Kani 0.68): a constant allocation (e.g. RawVec's ZERO_CAP, read by every Vec::new()/VecDeque::new()) is resolved to an
+// already generated static with identical initial bytes; writing that static then changes the "constant" (after the first
+// DefaultStack::new() every new VecDeque reported capacity 1). Every static of the model crates therefore carries a non-zero
+// tag next to its value, so that its initial bytes are not those of any small zero constant.
+static mut STEP_HOOK: (Option<StepHook>, u64) = (None, 0x5a5a_0003);
+static mut BODY_MODE: (bool, u32) = (false, 0x5a5a_0004);
+static mut NEXT_SCRIPT: (usize, u64) = (0, 0x5a5a_0005);
+static mut RESUMES: (usize, u64) = (0, 0x5a5a_0006);
 
 /// Model-only: install the script interpreter.
 pub fn verif_set_step_hook(h: Option<StepHook>) {
-    unsafe { STEP_HOOK = h }
+    unsafe { STEP_HOOK.0 = h }
 }
 /// Model-only: coroutines created from now on run their real closure at the first `resume`.
 pub fn verif_set_body_mode(on: bool) {
-    unsafe { BODY_MODE = on }
+    unsafe { BODY_MODE.0 = on }
 }
 /// Model-only: script id the next created coroutine will get.
 pub fn verif_next_script_id() -> usize {
-    unsafe { NEXT_SCRIPT }
+    unsafe { NEXT_SCRIPT.0 }
 }
 /// Model-only: restart script numbering.
 pub fn verif_reset_script_ids() {
-    unsafe { NEXT_SCRIPT = 0 }
+    unsafe { NEXT_SCRIPT.0 = 0 }
 }
 /// Model-only: total number of `resume` calls that actually entered a coroutine.
 pub fn verif_resume_count() -> usize {
-    unsafe { RESUMES }
+    unsafe { RESUMES.0 }
 }
 
 pub struct Yielder<Input, Yield> {
@@ -188,7 +192,7 @@ impl<Input, Yield> Yielder<Input, Yield> {
     /// that resume's argument; in the model it returns immediately with a zeroed `Input`
     /// (the only instantiations exercised use `()` or plain integers).
     pub fn suspend(&self, val: Yield) -> Input {
-        assert!(unsafe { !BODY_MODE_ACTIVE }, "corosensei model: suspend inside a body-mode coroutine");
+        assert!(unsafe { !BODY_MODE_ACTIVE.0 }, "corosensei model: suspend inside a body-mode coroutine");
         let prev = self.slot.replace(Some(val));
         assert!(prev.is_none(), "corosensei model: two suspends in one step");
         if core::mem::size_of::<Input>() == 0 {
@@ -202,7 +206,7 @@ impl<Input, Yield> Yielder<Input, Yield> {
         f()
     }
 }
-static mut BODY_MODE_ACTIVE: bool = false;
+static mut BODY_MODE_ACTIVE: (bool, u32) = (false, 0x5a5a_0007);
 
 pub struct Coroutine<Input, Yield, Return, S: stack::Stack = DefaultStack> {
     stack: S,
@@ -225,15 +229,15 @@ impl<Input, Yield, Return, S: stack::Stack> Coroutine<Input, Yield, Return, S> {
         Return: 'static,
     {
         let script = unsafe {
-            let s = NEXT_SCRIPT;
-            NEXT_SCRIPT += 1;
+            let s = NEXT_SCRIPT.0;
+            NEXT_SCRIPT.0 += 1;
             s
         };
         Coroutine {
             stack,
             started: false,
             done: false,
-            body_mode: unsafe { BODY_MODE },
+            body_mode: unsafe { BODY_MODE.0 },
             script,
             step: 0,
             yielder: Yielder {
@@ -252,16 +256,16 @@ impl<Input, Yield, Return, S: stack::Stack> Coroutine<Input, Yield, Return, S> {
     pub fn resume(&mut self, val: Input) -> CoroutineResult<Yield, Return> {
         assert!(!self.done, "attempt to resume a completed coroutine");
         self.started = true;
-        unsafe { RESUMES += 1 };
+        unsafe { RESUMES.0 += 1 };
         if self.body_mode {
             let f = self.func.take().expect("corosensei model: body already consumed");
-            unsafe { BODY_MODE_ACTIVE = true };
+            unsafe { BODY_MODE_ACTIVE.0 = true };
             let r = f(&self.yielder, val);
-            unsafe { BODY_MODE_ACTIVE = false };
+            unsafe { BODY_MODE_ACTIVE.0 = false };
             self.done = true;
             return CoroutineResult::Return(r);
         }
-        let hook = unsafe { STEP_HOOK }.expect("corosensei model: no step hook installed");
+        let hook = unsafe { STEP_HOOK.0 }.expect("corosensei model: no step hook installed");
         let mut ctx = StepCtx::<Input, Yield, Return> {
             yielder: &self.yielder,
             input: Some(val),
@@ -301,12 +305,12 @@ impl<Input, Yield, Return, S: stack::Stack> Coroutine<Input, Yield, Return, S> {
     }
 }
 
-static mut ON_STACK_DEPTH: usize = 0;
-static mut ON_STACK_LAST: (usize, usize) = (0, 0);
+static mut ON_STACK_DEPTH: (usize, u64) = (0, 0x5a5a_0008);
+static mut ON_STACK_LAST: (usize, usize, u64) = (0, 0, 0x5a5a_0009);
 
 /// Model-only: nesting depth of `on_stack` and the (base, limit) of the innermost segment.
 pub fn verif_on_stack() -> (usize, usize, usize) {
-    unsafe { (ON_STACK_DEPTH, ON_STACK_LAST.0, ON_STACK_LAST.1) }
+    unsafe { (ON_STACK_DEPTH.0, ON_STACK_LAST.0, ON_STACK_LAST.1) }
 }
 
 /// Runs `f` "on" `stack`: the model records the segment, moves the modelled stack pointer is the
@@ -315,15 +319,17 @@ pub fn on_stack<F, R>(stack: impl stack::Stack, f: F) -> R
 where
     F: FnOnce() -> R,
 {
-    let saved = unsafe { ON_STACK_LAST };
+    let saved = unsafe { (ON_STACK_LAST.0, ON_STACK_LAST.1) };
     unsafe {
-        ON_STACK_DEPTH += 1;
-        ON_STACK_LAST = (stack.base().get(), stack.limit().get());
+        ON_STACK_DEPTH.0 += 1;
+        ON_STACK_LAST.0 = stack.base().get();
+        ON_STACK_LAST.1 = stack.limit().get();
     }
     let r = f();
     unsafe {
-        ON_STACK_DEPTH -= 1;
-        ON_STACK_LAST = saved;
+        ON_STACK_DEPTH.0 -= 1;
+        ON_STACK_LAST.0 = saved.0;
+        ON_STACK_LAST.1 = saved.1;
     }
     drop(stack);
     r
